@@ -75,7 +75,9 @@ def run(ck):
         if rc0 != 0:
             ck.violation('fault-free run of scenario %s exits %d' % (scen.sid, rc0), {'scenario': scen.describe()})
             continue
-        single = len(scen.msgs) == 1
+        # (scenarios with a command are judged on the surviving trees only: the descriptor work of the command is not part of the
+        # rewrite / rename protocols the model describes)
+        single = len(scen.msgs) == 1 and 'exec' not in scen.rule and 'command' not in scen.rule
         if single:
             powerfail_check(ck, scen, calls0, None, stats)
             c01.check_model(ck, scen, calls0, rc0, stats, None)
